@@ -100,8 +100,24 @@ def ocaml_build():
         return rc == 0, out
 
 
+def point_repo_link(manifest_dir):
+    """<crate>/repo is a symlink to the repository under test (default /repo; $VERIF_REPO re-points it, e.g. to a
+    snapshot for background runs); the crate's Cargo.toml depends on `seq_io = { path = "repo" }`"""
+    link = os.path.join(manifest_dir, 'repo')
+    want = os.path.realpath(REPO)
+    try:
+        if os.path.lexists(link) and os.path.realpath(link) == want:
+            return
+        if os.path.lexists(link):
+            os.remove(link)
+        os.symlink(REPO, link)
+    except OSError:
+        pass
+
+
 def cargo_build(manifest_dir=HARNESS, extra=None, timeout=1800):
     with Lock('cargo'):
+        point_repo_link(manifest_dir)
         cmd = ['cargo', 'build', '--offline', '--quiet'] + (extra or [])
         rc, out = run(cmd, cwd=manifest_dir, timeout=timeout)
         return rc == 0, out
